@@ -179,7 +179,7 @@ def _run_jobs(jobs, parallel):
         procs.append((p, job))
     running = []
     results = []
-    env = dict(os.environ, PYTHONPATH=VERIF, PYTHONHASHSEED="0", NUMBA_NUM_THREADS="1", OMP_NUM_THREADS="1")
+    env = dict(os.environ, PYTHONPATH=core.pythonpath(), PYTHONHASHSEED="0", NUMBA_NUM_THREADS="1", OMP_NUM_THREADS="1")
     pending = list(procs)
     while pending or running:
         while pending and len(running) < parallel:
@@ -272,7 +272,7 @@ def layered_part(ck, tier, rng):
         return
     wd = scratch("c13layered")
     procs = []
-    env = dict(os.environ, PYTHONPATH=VERIF, PYTHONHASHSEED="0", NUMBA_NUM_THREADS="1", OMP_NUM_THREADS="1")
+    env = dict(os.environ, PYTHONPATH=core.pythonpath(), PYTHONHASHSEED="0", NUMBA_NUM_THREADS="1", OMP_NUM_THREADS="1")
     neg = dict(jobs[0], behaviours=jobs[0]["behaviours"][:1], sabotage=True)
     for i, job in enumerate(jobs + [neg]):
         p = os.path.join(wd, "ljob%d.json" % i)
